@@ -43,3 +43,17 @@ func GovcC12Hessenberg() {
     govcC12Same("hessenberg", a, a0)
   }
 }
+
+// a caller-supplied work matrix, different from the input and holding other values
+func GovcC12HessenbergWorkBuffer() {
+  a, a0 := govcC12Input(3, 3, false, false)
+  buf := NullDenseFloat64Matrix(3, 3)
+  for i := 0; i < 3; i++ {
+    for j := 0; j < 3; j++ {
+      buf.At(i, j).SetFloat64(7.0 + float64(i+j))
+    }
+  }
+  if _, _, err := Run(a, ComputeU{true}, &InSitu{H: buf}); err == nil {
+    govcC12Same("hessenberg-workbuffer", a, a0)
+  }
+}
